@@ -208,6 +208,18 @@ def run(ctx):
     for x in findings:
         if any("parser::" in n for n in x["nodes"]):
             ctx.bad("C01-G1", "parser#cycle", x["why"], "pdf/src/parser/mod.rs")
+    # every other cycle of the read universe: a crafted file that drives an unbounded recursion overflows the stack, which aborts the process
+    # (same analysis and the same witnesses as C14-REC; cycle_key is shared so that one defect has one key per property)
+    import c14
+    ctx.rule("C01-REC", "every cycle of the type-instantiated call graph over the read universe has a guard / budget / owned-descent / single-step witness "
+             "(shared with C14-REC): unbounded recursion on a crafted file ends in a stack overflow, i.e. an abort")
+    ctx.floor("C01-REC", len(accepted) + len(findings), 30, "cycles examined")
+    for nodes, why in accepted:
+        ctx.ok("C01-REC", c14.cycle_key(rec.inst, nodes)[:300], why)
+    for x in findings:
+        first = rec.inst.nodes[x["nodes"][0]]["body"]
+        ctx.bad("C01-REC", "cycle:" + c14.cycle_key(rec.inst, x["nodes"]), "unbounded recursion: " + x["why"], f.bodies[first]["span"],
+                path=["cycle member: " + n for n in x["nodes"][:10]])
     ctx.rule("C01-G3", "the walk over /Prev sections looks each offset up in the list of offsets already visited (error on a hit) and appends it")
     prev = [(b, head, k, txt) for b, head, k, txt in loops if b["id"].endswith("read_xref_table_and_trailer")]
     ctx.floor("C01-G3", len(prev), 2, "loops in read_xref_table_and_trailer")
